@@ -180,3 +180,40 @@ def symbolic_routes_for(m, var):
                 continue
         out.append(name)
     return out
+
+
+def simplified_partial_model(m, var, family):
+    """Model of the simplified symbolic partial the early routes evaluate: family 'fwd' (Partial /
+    Derivative) or 'rev' (Differential(compute_early=True)).  None if it cannot be produced."""
+    from . import lib
+    route = "Partial.as_expression/late" if family == "fwd" else "Differential(early).component.as_expression"
+    out = lib.call(lambda: run_symbolic(route, m, var))
+    if out.kind != lib.EXPR:
+        return None
+    from .build import to_model
+    return to_model(out.value)
+
+
+def family_of(route):
+    if route.endswith("/early") or route.endswith("after-as_expression"):
+        return "rev" if route.startswith("Differential") else "fwd"
+    return None
+
+
+def rounding_excuse(m, var, env, route):
+    """True when a symbolic (early) route's DomainError at a point where the original is defined
+    is explained by rounding of folded constants: with 2 ulp of uncertainty on its float constants
+    the simplified partial's domain test at this point is undecidable (within 4 eps of a boundary)."""
+    fam = family_of(route)
+    if fam is None:
+        return False
+    # Differential(compute_early=True).at(p) evaluates the simplified partials of *all* variables
+    names = M.variables(m) if route == "Differential.at.component/early" else [var]
+    for name in names:
+        sm = simplified_partial_model(m, name, fam)
+        if sm is None:
+            continue
+        r, _ = RE.evaluate(sm, dict(env), const_ulps=2.0)
+        if r.st in (RE.UNDECIDED, RE.RANGE):
+            return True
+    return False
